@@ -239,7 +239,7 @@ def run_property(prop_id, tier, obligations, info, seed=0, budget=None):
         elif r.get('detail'):
             print('  ' + r['detail'][-400:].replace('\n', '\n  '))
     for rec in errors:
-        print('HARNESS-ERROR property=%s obligation=%s %s: %s' % (prop_id, rec['name'], rec['verdict'], (rec.get('detail') or rec.get('cx_message') or '')[:600].replace('\n', ' | ')))
+        print('HARNESS-ERROR property=%s obligation=%s %s: %s' % (prop_id, rec['name'], rec['verdict'], (rec.get('detail') or rec.get('cx_message') or '')[-400:].replace('\n', ' | ')))
 
     write_evidence(prop_id, tier, seed, records, info, time.time() - t0, len(violations))
     counts = {}
